@@ -243,56 +243,44 @@ def _bfs_unit(backend: str) -> Partial:
     p.max("depth_completed", depth)
     p.sample({"backend": backend, "longest_path": max(paths.values(), key=len)})
     p.graph = {repr(k): v for k, v in graph.items()}  # type: ignore[attr-defined]
+    p.paths = paths  # type: ignore[attr-defined]
     return p
 
 
 def _pair_unit(item: tuple) -> Partial:
-    """thorough: two invocations side by side — a request on one never changes the other (state =
-    pair of (status, owner); BFS to closure, every transition on a fresh pair after replaying the path)."""
-    backend, first_req = item
+    """thorough: two invocations side by side — a request on one never changes the other. The pair
+    states are the product of the reachable single states (from the single-invocation BFS, with its
+    shortest request paths); every pair state x 84 requests, each on a fresh pair."""
+    backend, pairs, paths = item
     p = Partial()
     env.reset_world()
     app = env.make_app(backend, app_id=f"c01p{backend}")
     task = tasks.bind(app, tasks.ident)
-    a0 = _observe(app, _new_inv(app, task))[:2]
-    start = (a0, a0)
-    paths = {start: []}
-    frontier = [start]
     reqs = [(k, new, rid) for k in (0, 1) for new in STATUSES for rid in REQUESTERS]
-    first = True
-    while frontier:
-        nxt = []
-        for state in frontier:
-            for (k, new, rid) in reqs:
-                if first and (k, new, rid) != first_req and False:
-                    continue
-                ids = [_new_inv(app, task), _new_inv(app, task)]
-                for (kk, s_, r_) in paths[state]:
-                    _request(app, ids[kk], s_, r_)
-                before = [_observe(app, i) for i in ids]
-                if tuple(b[:2] for b in before) != state:
-                    raise RuntimeError(f"replay divergence reaching {state}")
-                hb = [_hist_len(app, i) for i in ids]
-                outcome = _request(app, ids[k], new, rid)
-                after = [_observe(app, i) for i in ids]
-                ha = [_hist_len(app, i) for i in ids]
-                p.count("transitions")
-                cur, owner = state[k]
-                _judge(p, "pair", backend, cur, owner, new, rid, before[k], outcome, after[k], hb[k], ha[k],
-                       {"kind": "pair", "backend": backend, "path": paths[state], "request": [k, new, rid]})
-                o = 1 - k
-                if after[o] != before[o] or ha[o] != hb[o]:
-                    p.violation({"clause": "request-on-one-invocation-changed-another", "backend": backend,
-                                 "from": cur, "to": new}, {"before": before, "after": after},
-                                {"kind": "pair", "backend": backend, "path": paths[state], "request": [k, new, rid]})
-                ns = tuple(a[:2] for a in after)
-                if ns not in paths:
-                    paths[ns] = paths[state] + [(k, new, rid)]
-                    nxt.append(ns)
-        frontier = nxt
-        first = False
-    p.sets["states"] = {("pair", s_) for s_ in paths}
-    p.count("traces_validated_against_impl", p.counters.get("transitions", 0))
+    for (sa, sb) in pairs:
+        for (k, new, rid) in reqs:
+            ids = [_new_inv(app, task), _new_inv(app, task)]
+            for (s_, r_) in paths[sa]:
+                _request(app, ids[0], s_, r_)
+            for (s_, r_) in paths[sb]:
+                _request(app, ids[1], s_, r_)
+            before = [_observe(app, i) for i in ids]
+            if (before[0][:2], before[1][:2]) != (sa, sb):
+                raise RuntimeError(f"replay divergence reaching {(sa, sb)} on {backend}: {before}")
+            hb = [_hist_len(app, i) for i in ids]
+            outcome = _request(app, ids[k], new, rid)
+            after = [_observe(app, i) for i in ids]
+            ha = [_hist_len(app, i) for i in ids]
+            p.count("transitions")
+            p.count("traces_validated_against_impl")
+            cur, owner = (sa, sb)[k]
+            rp = {"kind": "pair", "backend": backend, "paths": [paths[sa], paths[sb]], "request": [k, new, rid]}
+            _judge(p, "pair", backend, cur, owner, new, rid, before[k], outcome, after[k], hb[k], ha[k], rp)
+            o = 1 - k
+            if after[o] != before[o] or ha[o] != hb[o]:
+                p.violation({"clause": "request-on-one-invocation-changed-another", "backend": backend,
+                             "from": cur, "to": new}, {"before": before, "after": after}, rp)
+        p.add("states", ("pair", sa, sb))
     return p
 
 
@@ -329,7 +317,13 @@ def run(ctx: Ctx) -> None:
             ctx.violation({"clause": "backends-differ", "where": "sequence", "cell": k},
                           {"mem": g0.get(k), "sqlite": g1.get(k)}, {"kind": "sequence-both", "cell": k})
     if ctx.thorough:
-        for part in par.pmap(_pair_unit, [(b, None) for b in env.BACKENDS]):
+        items = []
+        for b, part in zip(env.BACKENDS, bparts):
+            singles = sorted(part.paths, key=repr)
+            pairs = [(x, y) for x in singles for y in singles]
+            n = max(1, len(pairs) // 16)
+            items += [(b, pairs[i:i + n], part.paths) for i in range(0, len(pairs), n)]
+        for part in par.pmap(_pair_unit, items):
             ctx.merge(part)
     svg = _svg_edges()
     ctx.extra["docs_svg_equals_frozen_spec"] = (svg == EDGES) if svg is not None else None
@@ -363,6 +357,24 @@ def replay(payload: dict) -> bool:
         ha = _hist_len(app, inv_id)
         _judge(p, "single", backend, cur, owner, new, rid, before, outcome, after, hb, ha, r)
         return bool(p.violations)
+    if r["kind"] == "pair":
+        paths = [[tuple(x) for x in pp] for pp in r["paths"]]
+        backend = r["backend"]
+        env.reset_world()
+        app = env.make_app(backend, app_id=f"c01p{backend}")
+        task = tasks.bind(app, tasks.ident)
+        ids = [_new_inv(app, task), _new_inv(app, task)]
+        for n_, pp in enumerate(paths):
+            for s_, r_ in pp:
+                _request(app, ids[n_], s_, r_)
+        k, new, rid = r["request"]
+        before = [_observe(app, i) for i in ids]
+        hb = [_hist_len(app, i) for i in ids]
+        outcome = _request(app, ids[k], new, rid)
+        after = [_observe(app, i) for i in ids]
+        ha = [_hist_len(app, i) for i in ids]
+        _judge(p, "pair", backend, before[k][0], before[k][1], new, rid, before[k], outcome, after[k], hb[k], ha[k], r)
+        return bool(p.violations) or after[1 - k] != before[1 - k]
     if r["kind"] == "sequence" and r.get("request"):
         backend = r["backend"]
         env.reset_world()
